@@ -319,6 +319,11 @@ func runC14(e *Env) {
 	// ---- part 3: router level ----
 	e.RunCases("router", e.N(600, 30000), 0, c14RouterCase)
 
+	// ---- part 3b: router level under concurrency (capacity large enough that nothing is evicted):
+	// every resolved dynamic request must leave its entry behind, whatever other requests
+	// (405 probes, 404s, other dynamic requests) are in flight
+	e.RunCases("router-concurrent", e.N(60, 2000), 2, c14RouterConcurrentCase)
+
 	// ---- part 4: concurrent histories, linearizability ----
 	e.RunCases("concurrent", e.N(1500, 40000), 2, c14ConcurrentCase)
 
@@ -328,6 +333,7 @@ func runC14(e *Env) {
 	e.Require("router.repeat_served_from_cache", 500)
 	e.Require("router.evictions_predicted", 50)
 	e.Require("lin.histories_ok", 300)
+	e.Require("router_concurrent.dynamic_resolved", 5000)
 	e.Require("lin.overlapping_ops", 20)
 }
 
@@ -758,3 +764,84 @@ func c14ConcurrentCase(t *T) {
 }
 
 var _ = rand.IntN
+
+func c14RouterConcurrentCase(t *T) {
+	r := t.R
+	tb := GenTable(r, 2+r.IntN(6), 60)
+	router := BuildRouter(tb, rux.CachingWithNum(1000), rux.HandleMethodNotAllowed)
+	cache := router.VerifCachedRoutes()
+	if cache == nil {
+		t.Fail("no-cache-created", "caching enabled but the router has no cache")
+		return
+	}
+	pool := tb.ProbePaths(r, 2, 3)
+	type rq struct {
+		m, p, key string
+		dyn       bool
+	}
+	var reqs []rq
+	for _, pb := range pool {
+		np, ok := RefNormalize(pb.Path, false)
+		if !ok {
+			continue
+		}
+		for _, m := range []string{"GET", "POST", "HEAD", "TRACE", "DELETE"} {
+			w, _ := tb.Resolve(m, np, false)
+			km := m
+			if w < 0 && m == "HEAD" {
+				w, _ = tb.Resolve("GET", np, false)
+				km = "GET"
+			}
+			reqs = append(reqs, rq{m, pb.Path, km + np, w >= 0 && !tb.Routes[w].Pat.IsStatic()})
+		}
+	}
+	t.Describe(func() any { return map[string]any{"routes": tb.Describe(), "capacity": 1000, "goroutines": 8, "requests": len(reqs)} })
+	t.AutoSample()
+	if len(reqs) == 0 {
+		return
+	}
+	var wg sync.WaitGroup
+	var missing int64
+	var first atomic.Value
+	var resolved int64
+	seeds := make([]uint64, 8)
+	for g := range seeds {
+		seeds[g] = r.Uint64()
+	}
+	for g := 0; g < 8; g++ {
+		wg.Add(1)
+		go func(g int) {
+			defer wg.Done()
+			lr := rand.New(rand.NewPCG(seeds[g], 3))
+			for k := 0; k < 300; k++ {
+				q := reqs[lr.IntN(len(reqs))]
+				route, _, _ := router.Match(q.m, q.p)
+				if !q.dyn {
+					continue
+				}
+				atomic.AddInt64(&resolved, 1)
+				if route == nil {
+					if atomic.AddInt64(&missing, 1) == 1 {
+						first.Store(fmt.Sprintf("%s %q found no route under concurrency although a dynamic route qualifies", q.m, q.p))
+					}
+					continue
+				}
+				if _, ok := cache.VerifPeek(q.key); !ok {
+					if atomic.AddInt64(&missing, 1) == 1 {
+						first.Store(fmt.Sprintf("%s %q was resolved to a dynamic route with caching enabled (capacity 1000, nothing is evicted), but the cache has no entry %q right afterwards", q.m, q.p, q.key))
+					}
+				}
+			}
+		}(g)
+	}
+	wg.Wait()
+	t.Count("router_concurrent.dynamic_resolved", resolved)
+	t.NonTrivial(fmt.Sprint(tb.Describe()))
+	t.Tracef("%d dynamic requests resolved by 8 goroutines, %d without a cache entry afterwards; cache holds %d entries", resolved, missing, cache.Len())
+	if missing > 0 {
+		t.Fail("resolved-entry-absent-under-concurrency", "%d of %d resolved dynamic requests left no cache entry; first: %v", missing, resolved, first.Load())
+	}
+	if err := cache.VerifCheck(); err != nil {
+		t.Fail("structure-invariant-after-concurrency", "%v", err)
+	}
+}
